@@ -80,6 +80,9 @@ def run(ctx):
                     ('ugrid', dict(w=3, h=2, supplied={'edge_face'}, stale_attrs=('edge_node_connectivity',), edge_dim_declared=False,
                                    transposed=False, invalid=False)),
                     ('ugrid', dict(w=2, h=2, supplied=set(), edge_dim_declared=True, phantom_edge_dim=True, invalid=False)),
+                    # ... and edges known only through a face_edge table (zero- and one-based) while nothing is stored on the edge dimension
+                    ('ugrid', dict(w=3, h=2, supplied={'face_edge'}, start_index=1, phantom_edge_dim=True, invalid=False)),
+                    ('ugrid', dict(w=2, h=3, supplied={'face_edge'}, start_index=0, phantom_edge_dim=True, invalid=False)),
                     ('ugrid', dict(w=2, h=3, supplied={'face_face'}, mesh_var_dim=True, invalid=False)),
                     # a curvilinear grid whose longitude is stored (x, y) and whose latitude is stored (y, x)
                     ('cf2d', dict(ny=3, nx=5, bounds=True, holes='none', invalid=False, lon_transposed=True)),
@@ -192,6 +195,7 @@ def run(ctx):
                 ctx.report('property', f'wind_index of {want} given as a numpy integer = {w} / {w2}, the cell is ({j}, {i})',
                            {'dataset': d.spec['label'], 'linear': want})
 
+    bulk_used = set()
     for plan, mres in zip(plans, model):
         d, flav, ems, enums, kname, kc, shape, size, lo, n, box = plan
         (m_wind, m_ravel), m_size = mres
@@ -215,6 +219,30 @@ def run(ctx):
             i_ravel.append(Some(int(r[1])) if r[0] == 'ok' else None)
         r = attempt(lambda: ems.grid_size[enums[kname]])
         i_size = Some(int(r[1])) if r[0] == 'ok' else None
+        # ---- history: the same questions after the dataset has been used in bulk (its geometry exported, its spatial index
+        # built, every cell located): the answers - refusals included - are what they were
+        if id(d) not in bulk_used:
+            bulk_used.add(id(d))
+            import warnings as _w
+            from emsarray.operations import geometry as _geometry
+            with _w.catch_warnings():
+                _w.simplefilter('ignore')
+                for f in (lambda: _geometry.to_geojson(d.ds), lambda: ems.strtree, lambda: ems.spatial_index, lambda: ems.polygons,
+                          lambda: ems.face_centres, lambda: _geometry.to_wkt(d.ds) if hasattr(_geometry, 'to_wkt') else None):
+                    try:
+                        f()
+                    except Exception:      # noqa: BLE001 - whether the export works is C15's question
+                        ctx.count('history:bulk use raised')
+            ctx.count('history:bulk use before asking again')
+        again = []
+        for lin in range(lo, lo + n):
+            r = attempt(ems.wind_index, lin, grid_kind=enums[kname])
+            again.append(Some(canon_native(flav, r[1])) if r[0] == 'ok' else None)
+        if again != i_wind:
+            k_ = next(i for i, (a, b) in enumerate(zip(again, i_wind)) if a != b)
+            ctx.report('property', f'wind_index({lo + k_}, {kname}) answered {i_wind[k_]} on the fresh dataset and {again[k_]} after its '
+                       f'geometry was exported and its spatial index built (None: refused)', case)
+            continue
         ctx.count('wind_ok', sum(1 for x in i_wind if x is not None))
         ctx.count('wind_err', sum(1 for x in i_wind if x is None))
         ctx.count('ravel_ok', sum(1 for x in i_ravel if x is not None))
